@@ -15,6 +15,7 @@ mod util;
 mod drive_code;
 mod oneshot;
 mod replay;
+mod rows;
 
 use std::collections::HashMap;
 
@@ -70,6 +71,7 @@ fn main() {
     let code = match args.cmd.as_str() {
         "code" => drive_code::main(&args),
         "oneshot" => oneshot::main(&args),
+        "rows" => rows::main(&args),
         "replay" => replay::main(&args),
         "replay-script" => replay::main_script(&args),
         other => {
